@@ -435,7 +435,7 @@ Section Json.
   (** in the common result type: [JNo] is "no claim" *)
   Definition js_decode (bs : bytes) : dres :=
     match js_decode_raw bs with
-    | JOk v r => DOk (value_norm v) r
+    | JOk v r => if dicts_ok v then DOk v r else DUnsup
     | JNo => DUnsup
     | JFuel => DFuel
     end.
